@@ -17,6 +17,8 @@
 (*   input   valid | lex (invalid character) | sem (undefined variable)    *)
 (*   nmods   1 | 2   (with 2 the fault is in the imported module)          *)
 (*   path    relative (a.pn) | nested (src/a.pn)                           *)
+(*   high    the program run by `run` ends with status 200 (above 128, the *)
+(*           range a shell uses for "killed by signal") instead of 3 / 7   *)
 (*                                                                         *)
 (* R (property text + `penne help`) gives the expected observables of each *)
 (* configuration; TLC enumerates the full product and prints one CASE per  *)
@@ -35,7 +37,9 @@ Paths == {"relative", "nested"}
 Configs ==
     { c \in [sub : Subs, implicit : BOOLEAN, verb : Verbs, color : Colors, arrows : Arrows, wasm : BOOLEAN, outdir : BOOLEAN,
              flag : BOOLEAN, env : BOOLEAN, cfg : BOOLEAN, bfail : BOOLEAN, input : Inputs, nmods : {1, 2},
-             path : Paths] :
+             path : Paths, high : BOOLEAN] :
+        \* the exit status of the program only exists for `run` of a valid program; a fake lli has one only when told to fail
+        /\ c.high => (c.sub = "run" /\ c.input = "valid" /\ ((~c.flag /\ ~c.env) \/ c.bfail))
         /\ c.implicit => c.sub = "build"
         /\ c.sub = "emit" => (~c.flag /\ ~c.env /\ ~c.cfg /\ ~c.bfail)      \* emit has no backend
         /\ c.sub = "run" => (~c.cfg /\ ~c.wasm)                             \* run has neither --config nor --wasm
@@ -69,7 +73,8 @@ SilentStdout(c) == c.verb = "silent"
 \* "penne run shows the program's exit status and passes its output through":
 \* 3 = what the test program returns under the real lli; a fake lli exits with 7 (bfail) or 0
 RunStatus(c) == IF c.sub # "run" \/ ~CompileOK(c) THEN 999
-                ELSE IF Backend(c) = "default" THEN 3 ELSE IF c.bfail THEN 7 ELSE 0
+                ELSE IF Backend(c) = "default" THEN (IF c.high THEN 200 ELSE 3)
+                ELSE IF c.bfail THEN (IF c.high THEN 200 ELSE 7) ELSE 0
 ShowsStatus(c) == c.sub = "run" /\ CompileOK(c) /\ c.verb # "silent"
 \* build: the output file goes to the out dir, extension wasm for --wasm ("Write binary output ... to this directory")
 OutExt(c) == IF c.sub = "build" /\ CompileOK(c) THEN (IF c.wasm THEN "wasm" ELSE "native") ELSE "none"
